@@ -7,10 +7,10 @@ static void Warmup()
 {
    g_css = new muscle::CompleteSetupSystem;
    muscle::SetConsoleLogLevel(muscle::MUSCLE_LOG_NONE);
-   // touch whatever the workload constructs lazily
+   // Nothing in PulseNode.cpp is constructed lazily, so no plan is executed here on purpose: a defect that hangs or crashes
+   // the scheduler must show up in a seeded run (attributable, replayable), never in the warm-up.
+   (void) muscle::GetRunTime64();
    SimClockReset();
-   RunResult r; Plan p = c20::Gen(12345); try {c20::Exec(p, r);} catch(...) {}
-   WatchdogDisarm();
 }
 static void BetweenRuns()
 {
